@@ -282,14 +282,12 @@ class CircuitCompositeOperation(ICircuitCompositeOperation):
         Mostly intended for composite-operations such that they can apply repetition and state-dependent registries.
         :return: Array-like of decomposed operations.
         """
-        result: List[ICircuitOperation] = []
-        for node in self._circuit_graph.get_node_iterator():
-            # Apply relation-link head (Important for nested composite-operations)
-            if not node.operation.has_relation:
-                node.operation.relation_link = self.relation_link
-            # Extend decomposed operation list
-            result.extend(node.operation.decomposed_operations())
-        return result
+        # Apply relation-link head (Important for nested composite-operations)
+        if self._apply_relation_link_to_heads():
+            # Time reference of head operations (and everything related to them) shifted, clear memoized start times
+            RelationLink.get_start_time.cache_clear()
+            MultiRelationLink.get_start_time.cache_clear()
+        return self._collect_decomposed_operations()
 
     def apply_flatten_to_self(self) -> ICircuitOperation:
         """
@@ -366,6 +364,34 @@ class CircuitCompositeOperation(ICircuitCompositeOperation):
             earliest_start_time = min(earliest_start_time, start_time - early_offset)
             latest_end_time = max(latest_end_time, start_time - early_offset + duration)
         return head_start_time - earliest_start_time, latest_end_time - earliest_start_time
+
+    def _apply_relation_link_to_heads(self) -> bool:
+        """
+        Hands relation link of self to all head operations (without relation), including nested composite-operations.
+        :return: Boolean, whether the time reference of any head operation changed.
+        """
+        result: bool = False
+        # Only operations connected to the graph root can be without relation
+        for node in self._circuit_graph.get_nodes_at(depth=1):
+            if node.operation.relation_link is self.relation_link:
+                continue
+            if not node.operation.has_relation:
+                result = result or self.has_relation
+                node.operation.relation_link = self.relation_link
+        for node in self._circuit_graph.get_node_iterator():
+            if isinstance(node.operation, CircuitCompositeOperation):
+                result = node.operation._apply_relation_link_to_heads() or result
+        return result
+
+    def _collect_decomposed_operations(self) -> List[ICircuitOperation]:
+        """:return: Array-like of decomposed operations (after relation links are handed to head operations)."""
+        result: List[ICircuitOperation] = []
+        for node in self._circuit_graph.get_node_iterator():
+            if isinstance(node.operation, CircuitCompositeOperation):
+                result.extend(node.operation._collect_decomposed_operations())
+            else:
+                result.extend(node.operation.decomposed_operations())
+        return result
 
     def get_sub_composite_operations(self) -> List[ICircuitCompositeOperation]:
         """:return: Array-like of all operations that are of instance ICircuitCompositeOperation."""
